@@ -106,7 +106,7 @@ theorem live_regDownstream {α} (d0 : α) : Live (regDownstream d0) Trans.idT ok
     · simp only [Stage.out, regDownstream] at h
       simp only [Stage.rin, regDownstream]; simp [h]
 
-/-- `regDownstreamBlocking` needs an unconditionally ready consumer to stay ready itself (utils.h:33: "valid will not become
+/-- `regDownstreamBlocking` needs an unconditionally ready consumer to stay ready itself (utils.h:34: "valid will not become
     high while ready is low") -/
 theorem live_regDownstreamBlocking {α} (d0 : α) : Live (regDownstreamBlocking d0) Trans.idT okTrue true true where
   deliver := fun env hl _ hf =>
